@@ -57,9 +57,13 @@ func (consumersSuite) Gen(r *rand.Rand, i int) Case {
 		case x < 66:
 			c.Ops = append(c.Ops, fmt.Sprintf("setcfg mc=%d partial=%d", []int64{-1, 0, 10}[r.Intn(3)], r.Intn(2)), "var")
 			c.Tags = append(c.Tags, "reconfig")
-		case x < 78:
+		case x < 76:
 			c.Ops = append(c.Ops, fmt.Sprintf("tick %d", []int64{1, width - 1, width, dur - 1, dur, 3 * dur}[r.Intn(6)]))
 			c.Tags = append(c.Tags, "tick")
+		case x < 78:
+			// the substitute clock is set BACK (around one window): late-stamped events
+			c.Ops = append(c.Ops, fmt.Sprintf("tick -%d", []int64{1, width, dur - width, dur - 1, dur, dur + 1, dur + width}[r.Intn(7)]))
+			c.Tags = append(c.Tags, "clock-set-back")
 		case x < 90:
 			c.Ops = append(c.Ops, "stats")
 		case x < 96:
